@@ -1,6 +1,7 @@
 import ArrProofs.Lemmas.C18Generic
 import ArrProofs.Lemmas.C18Display
 import ArrProofs.Lemmas.C18Text
+import ArrProofs.Lemmas.C18String
 /-!
 # C18 — array literals and text forms carry shape and elements faithfully
 
@@ -66,6 +67,23 @@ theorem literal_array {α} (pr : α → Str) (parse : Str → Option α) (s : Li
       rw [h2]; rfl
   have hl : s.prod = vals.length := by simpa using h.len.symm
   simp [finish, hm, Arr.new, hl]
+
+/-- **character literals** `array!(char, <nested brackets>)` (repaired `array_char!`, `fixes/C18-char-literal.diff`):
+the written shape and the characters in reading order, for every rank.  The characters may be brackets, commas,
+blanks, `_`, `#` — anything Debug prints unescaped (not `'`, `\`; `"` is excluded only to keep the statement short). -/
+theorem char_literal (s : List Nat) (cs : List Char) (hs : s ≠ []) (hpos : ∀ d ∈ s, 1 ≤ d)
+    (hl : cs.length = s.prod) (hc : ∀ c ∈ cs, c ≠ '\'' ∧ c ≠ '\\' ∧ c ≠ '"') :
+    arrayChar (debugVec s (cs.map (fun c => ['\'', c, '\'']))) = .ok (s, cs.map (fun c => [c])) :=
+  arrayChar_literal s cs hs hpos hl hc
+
+/-- **string literals** `array!(String, <nested brackets>)` (repaired `array_string!`,
+`fixes/C18-string-literal.diff`): the written shape and the strings in reading order, for every rank, for all
+contents satisfying `StrOk` — no `"`, no `\`, not exactly `", "`, no occurrence of the four characters `], [`;
+commas, brackets, blanks and the empty string are carried faithfully. -/
+theorem string_literal (s : List Nat) (cs : List Str) (hs : s ≠ []) (hpos : ∀ d ∈ s, 1 ≤ d)
+    (hl : cs.length = s.prod) (hc : ∀ c ∈ cs, StrOk c) :
+    arrayString (debugVec s (cs.map (wrapQ '"'))) = .ok (s, cs) :=
+  arrayString_literal s cs hs hpos hl hc
 
 /-- **plain text form**: `format!("{}", a)` / `format!("{:.p}", a)` of a non-empty array of rank ≥ 1 is the canonical
 nesting of its rendered elements: brackets nest according to the shape, elements in reading order
@@ -189,6 +207,19 @@ example : arrayGeneric (debugVec [2] [['a', ',', 'b'], ['c']]) = .ok ([3], [['a'
 
 example : display (fun (n : Nat) => [Char.ofNat (48 + n)]) true ⟨[1, 2, 3, 4], [2, 2]⟩ = "[[1, 2],\n [3, 4]]".toList := by
   decide
+
+/-- a string with a comma, a bracket and a blank is carried (`StrOk`), and the model run on the literal confirms it -/
+example : StrOk ['a', ',', ' ', 'b', ']'] :=
+  ⟨by decide, by decide, by decide, by
+    intro k
+    match k with
+    | 0 | 1 | 2 | 3 | 4 => decide
+    | k + 5 => simp [brSepL]⟩
+
+example : arrayString "[[[\"a, b]\", \"\"], [\"[\", \",\"]]]".toList
+    = .ok ([2, 2], ["a, b]".toList, [], ['['], [',']]) := by decide
+
+example : arrayChar "[[[',', ' '], ['[', ']']]]".toList = .ok ([2, 2], [[','], [' '], ['['], [']']]) := by decide
 
 example : SepFree ['-', '2', '.', '5'] := by
   intro c hc; simp only [List.mem_cons, List.not_mem_nil, or_false] at hc
